@@ -572,37 +572,6 @@ def static_errors(ast):
     return s
 
 
-def depth(n):
-    k = n[0]
-    if k in ("id", "qid", "cur", "elem", "lit", "raw"):
-        return 0
-    return 1 + max([depth(c) for c in list(walk_children(n))] or [0])
-
-
-def walk_children(n):
-    it = walk(n)
-    next(it)
-    # direct children only
-    k = n[0]
-    if k in ("sub", "pipe", "or", "and", "proj", "vproj", "flat"):
-        return [n[1], n[2]]
-    if k in ("idx", "not", "paren", "expref"):
-        return [n[1]]
-    if k == "slice":
-        return [n[1], n[3]]
-    if k == "filt":
-        return [n[1], n[2], n[3]]
-    if k == "cmp":
-        return [n[2], n[3]]
-    if k == "mlist":
-        return list(n[1])
-    if k == "mhash":
-        return [e for _, e in n[1]]
-    if k == "fn":
-        return list(n[2])
-    return []
-
-
 # ---------------------------------------------------------------------------- renderer
 
 _UNQUOTED = re.compile(r"[A-Za-z_][A-Za-z0-9_]*\Z")
